@@ -24,7 +24,7 @@ RULE = ("inputs: a directed corpus (adversarial hosts such as forum-m. / m-a. / 
         "also its single-switch neighbours on the directed inputs. A case is (url, option vector); non-trivial = parseable input on which at least one option can act (has userinfo, "
         "query, fragment, marker label, trailing slash, index/amp segment or explicit scheme); distinct = distinct (url, vector).")
 ASSUMPTIONS = ["oracle: reference reader R on input and output; scheme-less outputs are read with the input's scheme", "irrelevant labels: whole labels www, www<digit>, m, mobile, amp "
-               "(anywhere in the host, as the statement says) and a leading 'amp-'", "a deleted query item must be one ural's own should_strip_query_item declares irrelevant for the options in force "
+               "(anywhere in the host, as the statement says) and a leading 'amp-'", "a deleted query item must be one the documented irrelevant-item table embedded in the check declares irrelevant for the options in force "
                "(or a per-domain one) and never one of id/page/p/article/v/lang", "with platform_aware=True the deletion-only oracle is applied to non-Facebook/YouTube hosts only",
                "userinfo/fragment equality is on decoded bytes"]
 FLOORS = ["judged", "unparseable-returned-unchanged", "host-label-dropped", "host-amp-prefix-dropped", "query-item-deleted", "index-dropped", "amp-path-dropped", "trailing-slash-dropped",
@@ -494,7 +494,8 @@ def nontrivial_input(u):
 
 
 def run(ctx):
-    from ural.normalize_url import normalize_url as fn, should_strip_query_item as strip_item
+    from ural.normalize_url import normalize_url as fn
+    strip_item = None  # (ural's own predicate is not consulted: the documented table embedded above is the oracle)
     from ural.infer_redirection import infer_redirection as infer
 
     pr = Probes()
@@ -569,7 +570,8 @@ def run(ctx):
 
 
 def replay(ctx, witness):
-    from ural.normalize_url import normalize_url as fn, should_strip_query_item as strip_item
+    from ural.normalize_url import normalize_url as fn
+    strip_item = None  # (ural's own predicate is not consulted: the documented table embedded above is the oracle)
     from ural.infer_redirection import infer_redirection as infer
 
     opts = dict(DEFAULTS)
